@@ -18,8 +18,8 @@ Tie (the claim is PARTIAL: descriptor lifetime is runtime behaviour):
     nothing left to the finaliser, nothing left after everything is dropped);
   * the model is run on the same abstract scenario inside Coq and its trace
     (outcome class + handle snapshot after every call, finaliser work) is
-    compared with the observed one.  The model has a switch for defect D11
-    (see dev/patches/D11_*.patch): the tree must agree with the unpatched or
+    compared with the observed one.  The model has a switch for defect D19
+    (see dev/patches/D19_C20_unclosed_on_failure.patch): the tree must agree with the unpatched or
     with the patched variant on ALL cases of the run.
 """
 import gc
@@ -736,6 +736,7 @@ def run_writer(run, work, sc, fdlimit):
     ctx = Ctx(p, ip)
     t = sc['target']
     problems, trace = [], []
+    half_open = False
     with warnings.catch_warnings(record=True) as wlist:
         warnings.simplefilter('always')
         if t == 'path':
@@ -792,9 +793,10 @@ def run_writer(run, work, sc, fdlimit):
             if snap[2] or snap[3]:
                 problems.append(("caller-stream-closed", "TdmsWriter %s: a stream supplied by the caller was closed"
                                  % op[0], "caller streams stay open", list(snap)))
+            if op[0] == 'WWith' and op[1] == 'WIndexOpenFails' and out != 'Done':
+                half_open = True        # a failed __enter__: what it left behind is the same finding later on
             if op[0] in ('WWith', 'WClose') and (snap[0] or snap[1]):
-                key = ("unclosed-on-failure:TdmsWriter.open"
-                       if op[0] == 'WWith' and op[1] == 'WIndexOpenFails' else "fd-left-open:TdmsWriter")
+                key = "unclosed-on-failure:TdmsWriter.open" if half_open else "fd-left-open:TdmsWriter"
                 key = "%s:%s" % (key, which_files(snap[0], snap[1]))
                 problems.append((key, "after %s (%s): a descriptor opened by TdmsWriter is still open "
                                  "(data=%d, index=%d)" % (op[0], exc or "returned", snap[0], snap[1]),
@@ -869,14 +871,18 @@ def random_writer(rng, n, maxlen):
     for _ in range(n):
         t = rng.choice(WTARGETS)
         ops = []
+        emfile_used = False
         for _ in range(rng.randint(1, maxlen)):
             r = rng.random()
             if r < 0.6:
                 fault = 'WNoFault'
                 if t.startswith('path') and rng.random() < 0.12:
                     fault = 'WDataOpenFails'
-                elif t == 'path_index' and rng.random() < 0.1:
+                elif t == 'path_index' and rng.random() < 0.1 and not emfile_used:
+                    # at most once per scenario: the EMFILE injection is not reliable while an
+                    # earlier half-opened data file can be released (freeing a descriptor) mid-call
                     fault = 'WIndexOpenFails'
+                    emfile_used = True
                 ops.append(('WWith', fault, random_body(rng, rng.randint(0, 4))))
             elif r < 0.8:
                 ops.append(('WClose',))
@@ -1020,7 +1026,7 @@ def report_problems(run, problems, case, seen):
 
 
 def correspond(run, label, case_type, fn_base, cases, metas):
-    """Evaluate the model inside Coq under both variants of the D11 switch; the tree has to agree
+    """Evaluate the model inside Coq under both variants of the D19 switch; the tree has to agree
     with one of them on every case.  Returns the set of variants that match all cases."""
     both = {'unpatched', 'patched'}
     if not cases:
@@ -1067,6 +1073,7 @@ def run_batch(run, work, fdlimit, readers, writers, defrags, label):
         rmeta.append(dict(case=case, observed=dict(trace=[[o, list(s)] for o, s in tr], finaliser=list(fin)),
                           problems=problems))
         report_problems(run, problems, case, seen)
+        gc.freeze()     # keep gc.collect() proportional to one scenario, not to the harness's records
         run.cov["evaluations"] += 1
         run.count("reader:%s:%s" % (sc['api'], 'fault' if sc['fault'] != 'valid' else 'valid'))
         run.count("reader_src:%s" % ab['src'])
@@ -1081,6 +1088,7 @@ def run_batch(run, work, fdlimit, readers, writers, defrags, label):
         wmeta.append(dict(case=case, observed=dict(trace=[[o, list(s)] for o, s in tr], finaliser=list(fin)),
                           problems=problems))
         report_problems(run, problems, case, seen)
+        gc.freeze()
         run.cov["evaluations"] += 1
         run.cov["distinct_nontrivial"] += 1
         run.count("writer:%s" % sc['target'])
@@ -1107,8 +1115,8 @@ def run_batch(run, work, fdlimit, readers, writers, defrags, label):
             mixed = mixed or not (variants & v)
             variants &= v
     if mixed:
-        run.violation("variant-mix", "reader / writer / defragment agree with different variants of the D11 switch",
-                      {}, kind="correspondence-broken", theorem="D11 switch", no_input=True)
+        run.violation("variant-mix", "reader / writer / defragment agree with different variants of the D19 switch",
+                      {}, kind="correspondence-broken", theorem="D19 switch", no_input=True)
     return dict(variants=variants, observed=[m['observed'] for m in rmeta + wmeta + dmeta])
 
 
@@ -1153,17 +1161,17 @@ def main():
         "fault table; a wrong table entry shows up as a disagreement",
         "/proc/self/fd is sampled after every call, for raising calls inside the except block while the "
         "exception is alive; only descriptors whose target is one of the scenario's files count",
-        "the model carries a switch for defect D11; the tree must match one variant on all cases of the run",
+        "the model carries a switch for defect D19; the tree must match one variant on all cases of the run",
     ]
     if run.replay:
         replay(run, work, fdlimit, json.load(open(run.replay))["case"])
         run.finish()
     rng = random.Random(run.seed)
-    readers = enumerate_reader(rng) + random_reader(rng, run.pick(300, 9000), run.pick(10, 24))
-    writers = enumerate_writer(rng) + random_writer(rng, run.pick(100, 2500), run.pick(5, 10))
+    readers = enumerate_reader(rng) + random_reader(rng, run.pick(300, 20000), run.pick(10, 24))
+    writers = enumerate_writer(rng) + random_writer(rng, run.pick(100, 5000), run.pick(5, 10))
     defrags = enumerate_defrag()
     variants = run_batch(run, work, fdlimit, readers, writers, defrags, run.tier)['variants']
-    run.notes.append("code variant(s) of the D11 switch the tree agrees with on all cases: %s"
+    run.notes.append("code variant(s) of the D19 switch the tree agrees with on all cases: %s"
                      % (sorted(variants) or "none"))
     run.cov["rule"] = (
         "enumerated: %d fault kinds x 7 kinds of source x index file beside or not x 3 APIs with a follow-up "
